@@ -76,16 +76,16 @@ Next ==
 Spec == Init /\ [][Next]_vars
 
 (* ---- known findings: tolerated only with their exact signature, and only when listed in KF ---- *)
-F7sig == /\ last.o.op = "xbb" /\ last.o.n > last.T /\ last.T > 0
+F7_sig == /\ last.o.op = "xbb" /\ last.o.n > last.T /\ last.T > 0
          /\ last.probs = {"buf[0..ret) is not the extracted bytes / bytes outside it changed"}
-F13sig == /\ last.o.op \in {"mtob", "mfromb", "mtov", "mfromv", "ptov", "pfromv"}
+C14a_sig == /\ last.o.op \in {"mtob", "mfromb", "mtov", "mfromv", "ptov", "pfromv"}
           /\ last.probs = {"reads iov[0] of an empty iovector_view"}
-F14sig == /\ last.o.op = "slice" /\ last.T = 0 /\ last.o.N = 0 /\ last.o.n > 0 /\ last.ret = -1
+C14b_sig == /\ last.o.op = "slice" /\ last.T = 0 /\ last.o.N = 0 /\ last.o.n > 0 /\ last.ret = -1
           /\ last.probs = {"-1 although the request can be truncated to the content"}
 \* a tolerated outcome is printed, so that the driver knows which of the tolerated findings were actually met
-Known == \/ ("F7" \in KF /\ F7sig /\ PrintT("KFHIT F7"))
-         \/ ("F13" \in KF /\ F13sig /\ PrintT("KFHIT F13"))
-         \/ ("F14" \in KF /\ F14sig /\ PrintT("KFHIT F14"))
+Known == \/ ("F7" \in KF /\ F7_sig /\ PrintT("KFHIT F7"))
+         \/ ("C14a" \in KF /\ C14a_sig /\ PrintT("KFHIT C14a"))
+         \/ ("C14b" \in KF /\ C14b_sig /\ PrintT("KFHIT C14b"))
 
 \* the property: every outcome of the transcription is what the flat-sequence reference demands
 Correct == last.probs = {} \/ Known
